@@ -34,6 +34,7 @@ def run(rep, tier):
     # a for loop is part of what the script denotes: its operations are those of the unrolled loop (all of C06's clauses)
     common.guarded(rep, "C06.1", c06.c06_1, rep, ix, M.G)
     common.guarded(rep, "C06.2", c06.c06_2, rep, ix)
+    common.guarded(rep, "C06.3", c06.eager_header, rep, ix)
     common.guarded(rep, "C06.3", c06.c06_3, rep, ix, M.G)
     from .c11 import c11_5
     common.guarded(rep, "C06.4", c11_5, rep, ix, R="C06.4")
